@@ -458,6 +458,7 @@ fn in_process_families(tier: Tier, checked: bool) -> Vec<(String, u64)> {
     // state carried between calls: every 97th conforming file read right after a fixed series of failing calls
     for c in Container::ALL {
         v.push((format!("poisoned-{}", c.name()), ((w.lists(c).len() * w.layouts(c).len()) / 97) as u64));
+        v.push((format!("singlecall-{}", c.name()), 2 * props::poison::count() as u64));
     }
     v
 }
@@ -483,6 +484,22 @@ fn run_case(tier: Tier, fam: &str, idx: u64, t: &mut Tally) {
                 judge_conforming(c, &w.textures(c, list), &w.layouts(c)[real % ny], fam, idx, t);
                 for v in t.violations.iter_mut().skip(before) {
                     v.sig = format!("after-failed-calls:{}", v.sig);
+                }
+            }
+        }
+    } else if let Some(cn) = fam.strip_prefix("singlecall-") {
+        // EACH SINGLE call of the odd-call series immediately before one conforming file
+        if let Some(c) = Container::from_name(cn) {
+            let ny = w.layouts(c).len();
+            let nl = w.lists(c).len();
+            let call = idx as usize / 2;
+            let list = (call * 7 + (idx as usize % 2) * 3) % nl.max(1);
+            if list < nl {
+                props::poison::single_call(call);
+                let before = t.violations.len();
+                judge_conforming(c, &w.textures(c, list), &w.layouts(c)[(call * 5 + idx as usize % 2) % ny], fam, idx, t);
+                for v in t.violations.iter_mut().skip(before) {
+                    v.sig = format!("after-single-call:{}", v.sig);
                 }
             }
         }
